@@ -49,6 +49,8 @@ type Opaque struct {
 	JSON *JNode
 	// NotNilWord: known to differ from "<nil>".
 	NotNilWord bool
+	// Tag, when set, marks the string as the struct tag of a symbolic struct field (C20).
+	Tag *SymField
 }
 
 func (s Str) Len() int {
